@@ -45,6 +45,8 @@ def run(ctx, col, tier):
     col.guard(stateless.check, ctx, col, "R-STATE", ("swcgeom.transforms.geometry", "swcgeom.transforms.base"))
     from ..rules import ignoredparam
     ignoredparam.run(ctx, col, ('swcgeom.transforms.geometry', 'swcgeom.utils.transforms', 'swcgeom.transforms.base'))
+    from ..rules import smalllints
+    smalllints.run_falsy(ctx, col, ('swcgeom.transforms.geometry', 'swcgeom.utils.transforms'))
     col.guard(anchored, ctx, col)
     col.guard(shapes, ctx, col)
     col.guard(conj, ctx, col)
